@@ -69,7 +69,7 @@ CHECKS.update({
    note=SYSNOTE,
    tech="TLA+ contract monitor + TLC trace validation of real executions under a deterministic scheduler"),
  "C20": dict(engine="tlc+h_sys", cat=MC, ref="4 C20",
-   text="ExitRA.tla (exit/reclaim protocol under release/acquire with the memory orders extracted from the code, every transition replayed on the real ThreadContext and queue through a shim atomic); Quill.tla checked exhaustively for small configurations (per-action checks of this property, I=>A on every exported behaviour, schedules replayed on the real code with state comparison); plus executions with thread start/log/exit/shrink schedules and N short-lived threads between idle periods (N around 256, 512..) validated by TLC against QuillContract: retained contexts = live threads that logged, shrink takes effect, delivery intact",
+   text="ExitRA.tla (exit/reclaim protocol under release/acquire with the memory orders extracted from the code, every transition replayed on the real ThreadContext and queue through a shim atomic); Quill.tla checked exhaustively for small configurations (per-action checks of this property, I=>A on every exported behaviour, schedules replayed on the real code with state comparison); plus executions with thread start/log/exit/shrink schedules and N short-lived threads between idle periods (N around 256, 512..) validated by TLC against QuillContract: retained contexts = live threads that logged, shrink takes effect, delivery intact; the same exit/reclaim protocol on the REAL backend thread: StopRA.tla invariant NoReclaimLoss (a second thread logs and exits while the backend polls; the clean-up's acquire on _valid and its emptiness re-check), replayed through h_stop where the backend's own _cleanup_invalidated_thread_contexts decides",
    note=SYSNOTE,
    tech="TLA+ contract monitor + TLC trace validation of real executions under a deterministic scheduler"),
 })
@@ -165,7 +165,7 @@ man = {"version": 1, "setup_cmd": "cd /verif && ./setup.sh",
            {"name": "h_time", "path": "/verif/harness/h_time.cpp", "serves_properties": ["C13"], "kind_free_text": "real TimestampFormatter under TZ=<zone> with interposed strftime"},
            {"name": "h_named", "path": "/verif/harness/h_named.cpp", "serves_properties": ["C19"], "kind_free_text": "real named-args scanner and end-to-end JSON sink runs"},
            {"name": "h_life", "path": "/verif/harness/h_life.cpp", "serves_properties": ["C07"], "kind_free_text": "forked children running the real backend thread, FileSink and signals"},
-           {"name": "h_stop", "path": "/verif/harness/h_stop.cpp", "serves_properties": ["C03", "C06", "C07", "C08", "C16", "C17"], "kind_free_text": "the real backend thread (run loop, _poll, _exit), Backend::stop() and log calls of two real threads on the shim std::atomic (release/acquire model): the backend is parked at every load of its running flag, the script chooses what that load and the writer-position loads of the iteration read"},
+           {"name": "h_stop", "path": "/verif/harness/h_stop.cpp", "serves_properties": ["C03", "C06", "C07", "C08", "C16", "C17", "C20"], "kind_free_text": "the real backend thread (run loop, _poll, _exit), Backend::stop() and log calls of two real threads on the shim std::atomic (release/acquire model): the backend is parked at every load of its running flag, the script chooses what that load and the writer-position loads of the iteration read"},
            {"name": "h_filesink", "path": "/verif/harness/h_filesink.cpp", "serves_properties": ["C06"], "kind_free_text": "real quill::FileSink driven by scripts in a scratch directory (write, flush_sink, unlink, virtual steady clock, restart), fsync interposed and counted, file read back after every operation"},
            {"name": "h_lock", "path": "/verif/harness/h_lock.cpp", "serves_properties": ["C17"], "kind_free_text": "real detail::Spinlock on a shim std::atomic implementing the release/acquire model (coroutine threads, one step per atomic access, happens-before race detector)"},
            {"name": "h_remove", "path": "/verif/harness/h_remove.cpp", "serves_properties": ["C17"], "kind_free_text": "real LoggerManager / LoggerBase flags and bounded queue on the shim std::atomic (release/acquire model, script-chosen load values)"},
